@@ -325,7 +325,7 @@ class Inliner:
         self.n = 0
         self.inlined = []       # (caller, callee)
         self.base = baseline_fns()
-    def candidate(self, g, caller):
+    def candidate(self, g, caller, allow_try=False):
         c = self.c
         if g is None or g == caller or g in self.base or g not in c.thir or '{closure' in g: return False
         f = c.fns.get(g)
@@ -337,8 +337,16 @@ class Inliner:
             while q['k'] in ('Deref', 'DerefPattern'): q = q['sub']
             if q['k'] not in ('Binding', 'Wild'): return False
             if q['k'] == 'Binding' and (q.get('sub') is not None): return False
+        # `return` leaves the helper, not the caller: a body with returns cannot be pasted into the caller.  The one exception
+        # is error propagation: when the call itself is `helper(..)?`, the `?`s inside the helper propagate to the same place.
+        try_returns = set()
         for x in _all_nodes(t['body']):
-            if x.get('k') == 'Return': return False
+            if x.get('k') == 'Match' and 'TryDesugar' in str(x.get('source')):
+                for a in x['arms']:
+                    for y in _all_nodes(a['body']):
+                        if y.get('k') == 'Return': try_returns.add(id(y))
+        for x in _all_nodes(t['body']):
+            if x.get('k') == 'Return' and not (allow_try and id(x) in try_returns): return False
             if x.get('k') == 'Call' and callee_name(x) == g: return False
         return True
     def subst(self, node, m, clos):
@@ -374,9 +382,24 @@ class Inliner:
                 nt = dict(ct); nt['def'] = new; nt['body'] = nb
                 self.c.ithir[new] = nt
                 out['def'] = new
+        if out.get('k') == 'Match' and 'TryDesugar' in str(out.get('source')) and depth < 4:
+            sc = out['scrutinee']
+            if sc.get('k') == 'Call' and len(sc.get('args', [])) == 1:
+                inner = sc['args'][0]; wraps = []
+                while isinstance(inner, dict) and inner.get('k') in ('Use', 'NeverToAny'): wraps.append(inner); inner = inner['source']
+                if isinstance(inner, dict) and inner.get('k') == 'Call' and self.candidate(callee_name(inner), caller, allow_try=True) and not self.candidate(callee_name(inner), caller):
+                    r = self.inline_call(inner, caller, depth, allow_try=True)
+                    if r is not None:
+                        sc2 = dict(sc); sc2['args'] = [r]; out['scrutinee'] = sc2
+                        return out
         if out.get('k') == 'Call' and depth < 4:
+            r = self.inline_call(out, caller, depth)
+            if r is not None: return r
+        return out
+    def inline_call(self, out, caller, depth, allow_try=False):
+        if True:
             g = callee_name(out)
-            if self.candidate(g, caller):
+            if self.candidate(g, caller, allow_try):
                 t = self.c.thir[g]
                 m = {}; lets = []
                 ok = len(t['params']) == len(out['args'])
@@ -405,7 +428,7 @@ class Inliner:
                         return {'k': 'Block', 'stmts': lets, 'expr': body, 'loc': out.get('loc'), 'ty': out.get('ty'), 'inlined_from': g, 'targeted_by_break': False, 'safety': 'Safe'}
                     r = dict(body); r['inlined_from'] = g
                     return r
-        return out
+        return None
 
 def build_inlined_view(c):
     """c.ithir: like c.thir, with new helper functions inlined into their callers (the raw c.thir is left untouched)"""
